@@ -146,30 +146,42 @@ Proof. intros. apply nl_pos, good_len; assumption. Qed.
 Lemma len_repeat {A} (x : A) n : len (repeat x n) = Z.of_nat n.
 Proof. unfold len. rewrite repeat_length. reflexivity. Qed.
 
-Lemma total_nonneg es : Forall good es -> 0 <= sumZ (map nle es) + len (map nle es).
+Lemma nle_nonneg e : 0 <= nle e.
 Proof.
-  induction 1 as [|e es He _ IH]; [cbn; lia|].
-  cbn [map sumZ fold_right]. fold (sumZ (map nle es)). rewrite len_cons.
-  pose proof (nle_pos e He). lia.
+  unfold nle, nl. pose proof (len_nonneg (snd e)).
+  assert (-1 <= (len (snd e) - 1) / w) by (apply Z.div_le_lower_bound; lia). lia.
 Qed.
+Lemma total_nonneg_all es : 0 <= sumZ (map nle es) + len (map nle es).
+Proof.
+  induction es as [|e es IH]; [cbn; lia|].
+  cbn [map sumZ fold_right]. fold (sumZ (map nle es)). rewrite len_cons.
+  pose proof (nle_nonneg e). lia.
+Qed.
+Lemma total_nonneg es : Forall good es -> 0 <= sumZ (map nle es) + len (map nle es).
+Proof. intros _. apply total_nonneg_all. Qed.
 
-Lemma ll0_blocks es : Forall good es ->
+Lemma ll0_blocks_all es :
   repeat (w + 1) (Z.to_nat (sumZ (map nle es) + len (map nle es))) = concat (map blk0 es).
 Proof.
-  induction es as [|e es IH]; intros Hg; [reflexivity|].
-  inversion Hg as [|? ? Hg1 Hg2]; subst. pose proof (nle_pos e Hg1).
+  induction es as [|e es IH]; [reflexivity|].
+  pose proof (nle_nonneg e).
   cbn [map sumZ fold_right concat]. rewrite len_cons. fold (sumZ (map nle es)).
-  pose proof (total_nonneg es Hg2).
+  pose proof (total_nonneg_all es).
   replace (Z.to_nat (nle e + sumZ (map nle es) + (1 + len (map nle es))))
     with (Z.to_nat (nle e + 1) + Z.to_nat (sumZ (map nle es) + len (map nle es)))%nat by lia.
-  rewrite repeat_app, IH by assumption. reflexivity.
+  rewrite repeat_app, IH. reflexivity.
 Qed.
+Lemma ll0_blocks es : Forall good es ->
+  repeat (w + 1) (Z.to_nat (sumZ (map nle es) + len (map nle es))) = concat (map blk0 es).
+Proof. intros _. apply ll0_blocks_all. Qed.
 
-Lemma nles_nonneg es : Forall good es -> Forall (fun n => 0 <= n) (map nle es).
+Lemma nles_nonneg_all es : Forall (fun n => 0 <= n) (map nle es).
 Proof.
-  intros H. rewrite Forall_forall in *. intros n Hn. apply in_map_iff in Hn.
-  destruct Hn as [e [<- He]]. pose proof (nle_pos e (H e He)). lia.
+  apply Forall_forall. intros n Hn. apply in_map_iff in Hn.
+  destruct Hn as [e [<- He]]. apply nle_nonneg.
 Qed.
+Lemma nles_nonneg es : Forall good es -> Forall (fun n => 0 <= n) (map nle es).
+Proof. intros _. apply nles_nonneg_all. Qed.
 Lemma Forall_ge0 o l : 0 <= o -> Forall (fun i => o <= i) l -> Forall (fun i => 0 <= i) l.
 Proof. intros Ho H. eapply Forall_impl; [|exact H]. cbn; intros; lia. Qed.
 
@@ -228,21 +240,21 @@ Proof.
   induction 1 as [|j l Hj _ IH]; [reflexivity|]. cbn. rewrite IH.
   destruct (Z.eqb_spec i j); [lia|reflexivity].
 Qed.
-Lemma is_hdr_blocks es : Forall good es -> forall o,
+Lemma is_hdr_blocks_all es : forall o,
   map (fun i => existsb (Z.eqb i) (hdrs o (map nle es)))
       (arange_from o (Z.to_nat (sumZ (map nle es) + len (map nle es))))
   = concat (map hblk es).
 Proof.
-  induction es as [|e es IH]; intros Hg o; [reflexivity|].
-  inversion Hg as [|? ? Hg1 Hg2]; subst. pose proof (nle_pos e Hg1) as Hn.
+  induction es as [|e es IH]; intros o; [reflexivity|].
+  pose proof (nle_nonneg e) as Hn.
   cbn [map sumZ fold_right concat hdrs]. rewrite len_cons. fold (sumZ (map nle es)).
-  pose proof (total_nonneg es Hg2).
+  pose proof (total_nonneg_all es).
   replace (Z.to_nat (nle e + sumZ (map nle es) + (1 + len (map nle es))))
     with (S (Z.to_nat (nle e)) + Z.to_nat (sumZ (map nle es) + len (map nle es)))%nat by lia.
   rewrite arange_from_app, map_app. f_equal.
   - (* the block of e *)
     cbn [arange_from map existsb]. rewrite Z.eqb_refl. cbn [orb]. unfold hblk. f_equal.
-    pose proof (hdrs_ge (o + (nle e + 1)) (map nle es) (nles_nonneg es Hg2)) as Hge.
+    pose proof (hdrs_ge (o + (nle e + 1)) (map nle es) (nles_nonneg_all es)) as Hge.
     assert (Hgen : forall k s, o < s -> s + Z.of_nat k <= o + nle e + 1 ->
               map (fun i => (o =? i) || existsb (Z.eqb i) (hdrs (o + (nle e + 1)) (map nle es))) (arange_from s k)
               = repeat false k).
@@ -253,11 +265,16 @@ Proof.
       - apply IHk; lia. }
     rewrite <- (Hgen (Z.to_nat (nle e)) (o + 1)) by lia.
     apply map_ext. intros i. rewrite (Z.eqb_sym i o). reflexivity.
-  - rewrite <- (IH Hg2 (o + (nle e + 1))).
+  - rewrite <- (IH (o + (nle e + 1))).
     replace (o + Z.of_nat (S (Z.to_nat (nle e)))) with (o + (nle e + 1)) by lia.
     apply map_ext_in. intros i Hi. apply In_arange_from in Hi.
     cbn [existsb]. destruct (Z.eqb_spec i o); [lia|reflexivity].
 Qed.
+Lemma is_hdr_blocks es : Forall good es -> forall o,
+  map (fun i => existsb (Z.eqb i) (hdrs o (map nle es)))
+      (arange_from o (Z.to_nat (sumZ (map nle es) + len (map nle es))))
+  = concat (map hblk es).
+Proof. intros _. apply is_hdr_blocks_all. Qed.
 
 (* ---------- the fill ---------- *)
 Lemma option_map_app_app (a b : list Z) (x : option (list Z)) :
@@ -424,6 +441,125 @@ Proof.
   apply fill_all, Hg.
 Qed.
 
+
+(* ---------- the repaired variant on EVERY table (empty sequences included) ---------- *)
+Definition blk1g (e : entry) : list Z :=
+  if nle e =? 0 then [w + 1] else repeat (w + 1) (Z.to_nat (nle e)) ++ [lastl (len (snd e)) + 1].
+Definition blk2g (e : entry) : list Z :=
+  if nle e =? 0 then [len (fst e) + 2]
+  else (len (fst e) + 2) :: repeat (w + 1) (Z.to_nat (nle e - 1)) ++ [lastl (len (snd e)) + 1].
+
+Lemma nle_zero_iff e : nle e = 0 <-> snd e = [].
+Proof.
+  unfold nle, nl. pose proof (len_nonneg (snd e)) as Hl. split.
+  - intros H. destruct (snd e) as [|x l]; [reflexivity|]. exfalso.
+    rewrite len_cons in H. pose proof (len_nonneg l).
+    assert (0 <= (1 + len l - 1) / w) by (apply Z.div_pos; lia). lia.
+  - intros ->. cbn [len length Z.of_nat]. change (len (@nil Z)) with 0.
+    assert ((0 - 1) / w = -1); [|lia].
+    symmetry. apply (Z.div_unique (0 - 1) w (-1) (w - 1)); lia.
+Qed.
+
+Lemma mask_select_map {A B} (g : A -> B) m (l : list A) :
+  mask_select m (map g l) = map g (mask_select m l).
+Proof.
+  revert l; induction m as [|b m IH]; intros [|x l]; try reflexivity.
+  cbn [map mask_select]. rewrite map_app, IH. destruct b; reflexivity.
+Qed.
+Lemma Forall_mask_select {A} (P : A -> Prop) m (l : list A) : Forall P l -> Forall P (mask_select m l).
+Proof.
+  revert l; induction m as [|b m IH]; intros [|x l] H; try constructor.
+  inversion H; subst. cbn [mask_select]. apply Forall_app. split; [destruct b; auto|apply IH; assumption].
+Qed.
+
+Lemma ll1g_blocks es :
+  set_many (mask_select (map (fun n => 0 <? n) (map nle es)) (lasts 0 (map nle es)))
+           (mask_select (map (fun n => 0 <? n) (map nle es)) (map (fun e => lastl (len (snd e)) + 1) es))
+           (concat (map blk0 es))
+  = concat (map blk1g es).
+Proof.
+  induction es as [|e es IH]; [reflexivity|].
+  pose proof (nle_nonneg e) as Hn.
+  cbn [map lasts concat mask_select].
+  assert (Hl : len (blk0 e) = nle e + 1) by (unfold blk0; rewrite len_repeat; lia).
+  replace (0 + (nle e + 1)) with (0 + len (blk0 e)) by lia.
+  rewrite lasts_shift, mask_select_map.
+  assert (Hpos : Forall (fun i => 0 <= i)
+                   (mask_select (map (fun n => 0 <? n) (map nle es)) (lasts 0 (map nle es)))).
+  { apply Forall_mask_select. apply (Forall_ge0 0); [lia|]. apply lasts_ge, nles_nonneg_all. }
+  unfold blk1g at 1. destruct (Z.ltb_spec 0 (nle e)) as [Hlt|Hge].
+  - replace (nle e =? 0) with false by (symmetry; apply Z.eqb_neq; lia).
+    cbn [app]. rewrite set_many_block; [|lia|exact Hpos].
+    rewrite IH. f_equal. unfold blk0.
+    replace (Z.to_nat (0 + nle e)) with (Z.to_nat (nle e)) by lia.
+    replace (Z.to_nat (nle e + 1)) with (S (Z.to_nat (nle e))) by lia.
+    apply set_nth_repeat_last.
+  - assert (E : nle e = 0) by lia. rewrite E, Z.eqb_refl. cbn [app].
+    rewrite set_many_shift by exact Hpos. rewrite IH. f_equal.
+    unfold blk0. rewrite E. reflexivity.
+Qed.
+
+Lemma ll2g_blocks es :
+  set_many (hdrs 0 (map nle es)) (map (fun e => len (fst e) + 2) es) (concat (map blk1g es))
+  = concat (map blk2g es).
+Proof.
+  induction es as [|e es IH]; [reflexivity|].
+  pose proof (nle_nonneg e) as Hn.
+  cbn [map hdrs concat].
+  assert (Hl : len (blk1g e) = nle e + 1).
+  { unfold blk1g. destruct (Z.eqb_spec (nle e) 0) as [E|E]; [rewrite E; reflexivity|].
+    rewrite len_app, len_repeat. cbn. lia. }
+  replace (0 + (nle e + 1)) with (0 + len (blk1g e)) by lia.
+  rewrite hdrs_shift. rewrite set_many_block.
+  - rewrite IH. f_equal. unfold blk1g, blk2g.
+    destruct (Z.eqb_spec (nle e) 0) as [E|E]; [reflexivity|].
+    replace (Z.to_nat (nle e)) with (S (Z.to_nat (nle e - 1))) by lia. reflexivity.
+  - lia.
+  - apply (Forall_ge0 0); [lia|]. apply hdrs_ge, nles_nonneg_all.
+Qed.
+
+Lemma fill_entry_g e ll' h' names data :
+  fasta_fill (blk2g e ++ ll') (hblk e ++ h') (fst e :: names) (snd e ++ data)
+  = option_map (app (fasta_rec e)) (fasta_fill ll' h' names data).
+Proof.
+  unfold blk2g. destruct (Z.eqb_spec (nle e) 0) as [E|E].
+  - pose proof (proj1 (nle_zero_iff e) E) as Hs. unfold hblk, fasta_rec. rewrite E, Hs.
+    cbn [Z.to_nat repeat app fasta_fill]. rewrite Z.eqb_refl. rewrite wrap_nil.
+    destruct (fasta_fill ll' h' names data); cbn [option_map app]; [|reflexivity].
+    rewrite <- !app_assoc. reflexivity.
+  - assert (Hg : good e).
+    { unfold good. intros Hs. apply E. apply nle_zero_iff, Hs. }
+    exact (fill_entry e ll' h' names data Hg).
+Qed.
+
+Lemma fill_all_g es :
+  fasta_fill (concat (map blk2g es)) (concat (map hblk es)) (map fst es) (concat (map snd es))
+  = Some (concat (map fasta_rec es)).
+Proof.
+  induction es as [|e es IH]; [reflexivity|].
+  cbn [map concat]. rewrite fill_entry_g. rewrite IH. reflexivity.
+Qed.
+
+Theorem fasta_fixed_layout es :
+  fasta_from_data_fixed w es = Some (concat (map fasta_rec es)).
+Proof.
+  unfold fasta_from_data_fixed.
+  replace (map (fun L => (L - 1) / w + 1) (map (fun e : list Z * list Z => len (snd e)) es))
+    with (map nle es) by (rewrite map_map; reflexivity).
+  replace (map (fun n => n + 2) (map (fun e : list Z * list Z => len (fst e)) es))
+    with (map (fun e : entry => len (fst e) + 2) es) by (rewrite map_map; reflexivity).
+  replace (map (fun n => n + 1) (map (fun L => (L - 1) mod w + 1) (map (fun e : list Z * list Z => len (snd e)) es)))
+    with (map (fun e : entry => lastl (len (snd e)) + 1) es) by (rewrite !map_map; reflexivity).
+  unfold cumsum. rewrite removelast_starts. cbn [tl].
+  replace (map (fun s => s - 1) (cumsum_from 0 (map (fun n => n + 1) (map nle es))))
+    with (lasts 0 (map nle es)).
+  2:{ rewrite cumsum_from_starts, map_map.
+      rewrite (map_ext (fun x => x + 1 - 1) (fun x => x)) by (intros; lia). rewrite map_id. reflexivity. }
+  rewrite ll0_blocks_all, ll1g_blocks, ll2g_blocks.
+  unfold arange. rewrite (is_hdr_blocks_all es 0).
+  apply fill_all_g.
+Qed.
+
 (* whichever variant the switch [fasta_from_data] selects *)
 Theorem fasta_from_data_layout es : Forall good es ->
   fasta_from_data w es = Some (concat (map fasta_rec es)).
@@ -444,6 +580,11 @@ Theorem fasta_fixed_layout_nonempty (w : Z) (es : list (list Z * list Z)) :
   1 <= w -> Forall (fun e => snd e <> []) es ->
   fasta_from_data_fixed w es = Some (concat (map (fun e => [62] ++ fst e ++ [10] ++ wrap w (snd e)) es)).
 Proof. intros Hw Hg. exact (fasta_fixed_layout_good w Hw es Hg). Qed.
+(* the repaired from_data, every width and EVERY table: empty sequences become a bare header line *)
+Theorem fasta_fixed_layout_all (w : Z) (es : list (list Z * list Z)) :
+  1 <= w ->
+  fasta_from_data_fixed w es = Some (concat (map (fun e => [62] ++ fst e ++ [10] ++ wrap w (snd e)) es)).
+Proof. intros Hw. exact (fasta_fixed_layout w Hw es). Qed.
 Lemma fasta_fixed_empty_sequence :
   fasta_from_data_fixed 3 [([97], []); ([98], [65; 67; 71; 84]); ([99], [])] = Some [62; 97; 10; 62; 98; 10; 65; 67; 71; 10; 84; 10; 62; 99; 10].
 Proof. vm_compute. reflexivity. Qed.
